@@ -48,6 +48,8 @@ def gen_cases(tier, seed):
     cases = []
     for s in _small_shapes(tier):
         cases.append({"id": "ex_" + "x".join(map(str, s)) if s else "ex_scalar", "shape": list(s), "ranges": "all"})
+    for s in rnd.sample([x for x in _small_shapes(tier) if len(x) >= 2], 20):  # strided (non-contiguous) 1-D shards are views as well
+        cases.append({"id": "exstr_" + "x".join(map(str, s)), "shape": list(s), "ranges": "all", "shard_stride": 2})
     if tier == "quick":
         # stratified sample of order-4 / dims<=4 / order-5 shapes, all ranges
         pool = [s for s in itertools.product((1, 2, 3), repeat=4)] + [s for s in itertools.product((1, 2, 3, 4), repeat=3) if 4 in s] + list(itertools.product((1, 2), repeat=5))
@@ -75,7 +77,7 @@ def gen_cases(tier, seed):
                 a = rnd.randint(0, n)
                 b = rnd.randint(a, n)
             rs.append([a, b])
-        cases.append({"id": f"rnd{i}_" + "x".join(map(str, shape)), "shape": shape, "ranges": rs, "dtype": rnd.choice(["float32", "float64", "bfloat16", "int64"]), "offset": rnd.choice([0, 0, 3, 17])})
+        cases.append({"id": f"rnd{i}_" + "x".join(map(str, shape)), "shape": shape, "ranges": rs, "dtype": rnd.choice(["float32", "float64", "bfloat16", "int64"]), "offset": rnd.choice([0, 0, 3, 17]), "shard_stride": rnd.choice([1, 1, 1, 2, 3])})
     # rejection of non-flat shards
     cases.append({"id": "nonflat", "shape": [2, 3], "ranges": "nonflat"})
     return cases
@@ -107,8 +109,9 @@ def _get_copies():
     return _copies
 
 
-def _check_call(torch, name, fn, shape, a, b, base, offset, best_ab, sigs, counters):
-    shard = base[offset + a : offset + b]
+def _check_call(torch, name, fn, shape, a, b, base, offset, best_ab, sigs, counters, step=1):
+    # the shard is a 1-D view of `base` with element stride `step` (FSDP hands out contiguous shards; strided ones are views too)
+    shard = base[offset + a * step : offset + b * step : step] if step > 1 else base[offset + a : offset + b]
     pieces = fn(shard, torch.Size(shape), a, b)
     counters["evals"] += 1
     if not isinstance(pieces, (list, tuple)):
@@ -119,14 +122,16 @@ def _check_call(torch, name, fn, shape, a, b, base, offset, best_ab, sigs, count
         nel = p.numel()
         y = x + nel
         desc.append((x, y, tuple(p.shape)))
-        # view of the shard, at the right place
-        if p.untyped_storage().data_ptr() != base.untyped_storage().data_ptr() or p.storage_offset() != base.storage_offset() + offset + x or not p.is_contiguous():
-            raise Violation(f"{name}: piece {len(desc) - 1} is not a contiguous view of the shard at flat offset {x - a}", shape=shape, start=a, end=b, pieces=desc)
+        # a view of the shard at the right place: same storage, offset of element x, row-major strides scaled by the shard's stride
+        want_strides = tuple(step * math.prod(p.shape[k + 1 :]) for k in range(p.dim()))
+        ok_strides = all(p.shape[k] == 1 or p.stride(k) == want_strides[k] for k in range(p.dim()))
+        if p.untyped_storage().data_ptr() != base.untyped_storage().data_ptr() or p.storage_offset() != base.storage_offset() + offset + (x - a) * step + a * step or not ok_strides:
+            raise Violation(f"{name}: piece {len(desc) - 1} is not a view of the shard at flat offset {x - a} (copy or wrong strides)", shape=shape, start=a, end=b, pieces=desc, shard_stride=step)
         if nel == 0:
             raise Violation(f"{name}: empty piece returned", shape=shape, start=a, end=b, pieces=desc)
         # content identifies positions (base holds its own index)
         flat = p.reshape(-1)
-        if int(flat[0]) != (offset + x) % 251 or int(flat[-1]) != (offset + y - 1) % 251:
+        if int(flat[0]) != (offset + x * step) % 251 or int(flat[-1]) != (offset + (y - 1) * step) % 251:
             raise Violation(f"{name}: piece {len(desc) - 1} does not hold elements [{x},{y})", shape=shape, start=a, end=b, pieces=desc)
         ok_shapes = [shp for _, shp in slab_dims(shape, x, y)]
         if len(shape) == 0:
@@ -169,7 +174,8 @@ def run_case(case):
     n = math.prod(shape)
     dtype = getattr(torch, case.get("dtype", "float32"))
     offset = case.get("offset", 0)
-    base = (torch.arange(n + offset + 5) % 251).to(dtype)
+    step = case.get("shard_stride", 1)
+    base = (torch.arange(n * step + offset + 5) % 251).to(dtype)
     if case["ranges"] == "all":
         by_a = {a: list(range(a, n + 1)) for a in range(n + 1)}
     else:
@@ -181,7 +187,7 @@ def run_case(case):
         for b in bs:
             descs = {}
             for name, fn in copies.items():
-                descs[name] = _check_call(torch, name, fn, shape, a, b, base, offset, best[b - a], sigs, counters)
+                descs[name] = _check_call(torch, name, fn, shape, a, b, base, offset, best[b - a], sigs, counters, step=step)
             if len(descs) == 2 and descs["fsdp"] != descs["hsdp"]:
                 raise Violation("FSDP and HSDP copies disagree", shape=list(shape), start=a, end=b, fsdp=descs["fsdp"], hsdp=descs["hsdp"])
             if len(next(iter(descs.values()))) >= 2:
